@@ -69,3 +69,170 @@ Print Assumptions system_invariant.
 Example two_pairs_differ :
   (t_src (Task 1 1 2 3 1 0 1 1 [] true true), t_ig (Task 1 1 2 3 1 0 1 1 [] true true)) <> (1, 4).
 Proof. exact two_pairs_differ_lemma. Qed.
+
+(* ======================================================================
+   SYSTEM-LEVEL COMPOSITION (Model/BridgeSystem.v, Proofs/BridgeSystemP.v):
+   configuration --C20--> loaded tasks --C04--> interleaved system
+                 --C01 bridge rows->task, C11--> declared rows.
+   ====================================================================== *)
+From Shovel Require Base.Outcome Model.Manager Model.Filter Model.Rows Proofs.BridgeSystemP.
+From Shovel Require Import Model.BridgeRowsTask Model.BridgeSystem.
+
+(* (a) The system invariant with C01's growth invariant in place of TaskInv.
+   Every task c reads ITS OWN canonical chain [ch c] (growth only: whatever
+   version answers is a prefix of it); [sched_growth ch] is [sched_ok] with
+   [growth_reply .. (ch c)] in place of [reply_ok] on the answers given to the
+   task of configuration c -- crashes, injected faults on any operation, failed
+   partitions, forced dependency readings all allowed.  Then in EVERY state of
+   EVERY interleaved run, EVERY task's indexed blocks are a contiguous run of
+   blocks of its own chain ([TaskInvG]). *)
+Theorem system_growth_invariant : forall (ch : tcfg -> chain) cfgs d sch,
+  Forall cfg_ok cfgs -> NoDup (map pair_of cfgs) ->
+  Forall (fun c => wf_chain (ch c) /\ height (ch c) < nmax) cfgs ->
+  Forall (fun c => TaskInvG c (ch c) d) cfgs ->
+  sched_growth ch sch (sys_init cfgs d) ->
+  forall st, In st (sys_states sch (sys_init cfgs d)) ->
+  forall c, In c cfgs -> TaskInvG c (ch c) (s_db st).
+Proof. exact BridgeSystemP.system_growth_inv_lemma. Qed.
+Print Assumptions system_growth_invariant.
+
+(* a growth schedule is a schedule of [system_invariant] *)
+Theorem growth_schedule_is_schedule : forall (ch : tcfg -> chain) cfgs,
+  (forall c, In c cfgs -> wf_chain (ch c) /\ height (ch c) < nmax) ->
+  forall sch st, C04P.sys_ok st -> map ts_cfg (s_tasks st) = cfgs ->
+  sched_growth ch sch st -> sched_ok sch st.
+Proof. exact BridgeSystemP.sched_growth_ok. Qed.
+Print Assumptions growth_schedule_is_schedule.
+
+(* (b) any schedule whatsoever (no premise on the answers): a row or cursor
+   is only ever stored under the pair of one of the system's tasks *)
+Theorem system_stores_only_own_pairs : forall cfgs d sch, owned_by cfgs d ->
+  forall st, In st (sys_states sch (sys_init cfgs d)) -> owned_by cfgs (s_db st).
+Proof. exact BridgeSystemP.owned_lemma. Qed.
+Print Assumptions system_stores_only_own_pairs.
+
+(* the database at the end of a run is one of the states visited *)
+Theorem final_state_is_visited : forall sch st, In (sys_run sch st) (sys_states sch st).
+Proof. exact BridgeSystemP.sys_run_in_states. Qed.
+Print Assumptions final_state_is_visited.
+
+(* (c) THE WHOLE SYSTEM.  [w : world] supplies what the configuration does
+   not decide (Model/BridgeSystem.v): ids for names ([w_enc], injective), the
+   declaration of every integration name, the canonical chain of rows-level
+   blocks of every source name ([w_raw]).  For EVERY configuration the
+   manager's loadTasks accepts (C20, repaired loader), the system of the
+   loaded tasks started on the empty database, EVERY schedule in which each
+   task is answered from its own chain [sys_chain w t] = the blocks of ITS
+   source decoded and instantiated with ITS declaration, EVERY state visited
+   and EVERY loaded task t: the restriction of the database to t's pair is
+   empty, or its rows are exactly, in block order, the keyed rows t's
+   declaration emits for the blocks [m, m+k) of t's source, m+k-1 being the
+   recorded position -- the rows ONE Integration.Insert (C11) over those
+   blocks returns.  Composition of C20 loaded_tasks_have_distinct_pairs /
+   loaded_tasks_batch_conc_pos, (a), and C01 growth_table_is_declared_projection. *)
+Theorem system_tables_are_declared_projections : forall w fs ds fi di ts,
+  (forall a b, w_enc w a = w_enc w b -> a = b) ->
+  Manager.load_tasks fs ds fi di = Outcome.Ok ts ->
+  world_ok w ts ->
+  forall sch, sched_growth (chain_of w ts) sch (sys_start w ts) ->
+  forall st, In st (sys_states sch (sys_start w ts)) ->
+  forall t, In t ts ->
+  let c := sys_cfg w t in
+  let d := s_db st in
+  (d_rows (pv c d) = [] /\ d_curs (pv c d) = [])
+  \/ exists m k n h rows,
+       1 <= k /\ m + k <= N.of_nat (length (w_raw w (Manager.t_src t)))
+       /\ newest (t_src c) (t_ig c) (d_curs d) = Some (n, h) /\ n + 1 = m + k
+       /\ d_rows (pv c d)
+          = concat (map (declared_rows c (sys_decl w t) (sys_ctx t) (w_dbs w)) (rsegment (sys_rchain w t) m k))
+       /\ Rows.insert Rows.fixed (sys_decl w t) (sys_ctx t) (w_dbs w) (rsegment (sys_rchain w t) m k)
+          = Outcome.Ok rows
+       /\ map r_val (d_rows (pv c d)) = map enc_row rows.
+Proof. exact BridgeSystemP.system_projection_lemma. Qed.
+Print Assumptions system_tables_are_declared_projections.
+
+(* (d) FRAME, for the whole database: every stored row is stamped with the
+   pair of EXACTLY ONE loaded task and is a declared row (C11's row_spec /
+   enclosing_fields: [declared_row]) of THAT task's declaration, built from an
+   item of a block of THAT task's source; no table ever holds a row produced
+   from another task's declaration, nor a row of no task.  Cursors likewise. *)
+Theorem system_rows_have_one_owner : forall w fs ds fi di ts,
+  (forall a b, w_enc w a = w_enc w b -> a = b) ->
+  Manager.load_tasks fs ds fi di = Outcome.Ok ts ->
+  world_ok w ts ->
+  forall sch, sched_growth (chain_of w ts) sch (sys_start w ts) ->
+  forall st, In st (sys_states sch (sys_start w ts)) ->
+  (forall r, In r (d_rows (s_db st)) ->
+     exists t, In t ts
+       /\ row_of (t_src (sys_cfg w t)) (t_ig (sys_cfg w t)) r = true
+       /\ (forall t', In t' ts -> row_of (t_src (sys_cfg w t')) (t_ig (sys_cfg w t')) r = true -> t' = t)
+       /\ exists b k gr, In b (sys_rchain w t) /\ r = trow_of (sys_cfg w t) (Rows.b_num b) (k, gr)
+                         /\ declared_row (sys_decl w t) (sys_ctx t) (w_dbs w) b k gr)
+  /\ (forall x, In x (d_curs (s_db st)) ->
+        exists t, In t ts /\ cur_of (t_src (sys_cfg w t)) (t_ig (sys_cfg w t)) x = true).
+Proof. exact BridgeSystemP.system_owner_lemma. Qed.
+Print Assumptions system_rows_have_one_owner.
+
+(* the chain function of (c)/(d) gives every loaded task its own chain *)
+Theorem loaded_task_reads_own_chain : forall w fs ds fi di ts t,
+  (forall a b, w_enc w a = w_enc w b -> a = b) ->
+  Manager.load_tasks fs ds fi di = Outcome.Ok ts -> In t ts ->
+  chain_of w ts (sys_cfg w t) = sys_chain w t.
+Proof. exact BridgeSystemP.loaded_chain_of. Qed.
+Print Assumptions loaded_task_reads_own_chain.
+
+(* (e) the premise on schedules is satisfiable for every accepted
+   configuration, every world and EVERY order of moves, process deaths and
+   injected faults ([gen_sched]: the database answers itself, the node answers
+   honestly from the task's chain) -- connection ids distinct *)
+Theorem growth_schedules_exist : forall w fs ds fi di ts who,
+  (forall a b, w_enc w a = w_enc w b -> a = b) ->
+  Manager.load_tasks fs ds fi di = Outcome.Ok ts -> world_ok w ts ->
+  NoDup (map (w_id w) ts) ->
+  sched_growth (chain_of w ts) (gen_sched (chain_of w ts) who (sys_start w ts)) (sys_start w ts).
+Proof. exact BridgeSystemP.loaded_gen_sched_growth. Qed.
+Print Assumptions growth_schedules_exist.
+
+(* (f) the premise is NEEDED and is not implied by C04's [sched_ok] (replies
+   merely numbered as requested): a node answering the task of integration "a"
+   from the chain instantiated with the declaration of "b" (and vice versa)
+   satisfies [sched_ok], and table "a" ends up holding the rows of "b" *)
+Theorem system_projection_from_sched_ok_refuted : ~ projection_from_sched_ok.
+Proof. exact BridgeSystemP.projection_from_sched_ok_refuted. Qed.
+Print Assumptions system_projection_from_sched_ok_refuted.
+
+(* non-vacuity: one source, two integrations on it with different events
+   (E(uint256 indexed a, uint256 v) and F(uint256 indexed x)), three blocks, the
+   logs of both events interleaved inside the blocks.  The hypotheses of (c),
+   (d) hold for the configuration, the world and the 146-move schedule in which
+   the two tasks alternate operation by operation, with one injected database
+   error and one process death; the final database holds exactly the two
+   declared projections of blocks 1..2, each in its own table *)
+Example system_example_hypotheses :
+  (forall a b, w_enc ex_world a = w_enc ex_world b -> a = b)
+  /\ Manager.load_tasks ex_file_srcs [] ex_file_igs [] = Outcome.Ok ex_loaded
+  /\ world_ok ex_world ex_loaded
+  /\ sched_growth (chain_of ex_world ex_loaded) ex_sched (sys_start ex_world ex_loaded).
+Proof.
+  exact (conj BridgeSystemP.hid_injective (conj BridgeSystemP.ex_load
+          (conj BridgeSystemP.ex_world_ok BridgeSystemP.ex_sched_growth))).
+Qed.
+Example system_example_run :
+  let d := s_db (sys_run ex_sched (sys_start ex_world ex_loaded)) in
+  let ca := sys_cfg ex_world ex_ta in
+  let cb := sys_cfg ex_world ex_tb in
+  ex_loaded = [ex_ta; ex_tb] /\ pair_of ca <> pair_of cb /\ t_tbl ca = 3 /\ t_tbl cb = 4
+  /\ d_rows d
+     = concat (map (declared_rows ca ex_decl (sys_ctx ex_ta) []) (rsegment (sys_rchain ex_world ex_ta) 1 2))
+       ++ concat (map (declared_rows cb ex2_decl (sys_ctx ex_tb) []) (rsegment (sys_rchain ex_world ex_tb) 1 2))
+  /\ d_rows d
+     = [ trow_of ca 1 (Key 0 (Some 0) (Some 0%nat) None,
+           [Filter.VU256 5; Filter.VU256 9; Filter.VU64 1; Filter.VU64 0; Filter.VU64 0; Filter.VInt Z0]);
+         trow_of ca 2 (Key 3 (Some 5) (Some 0%nat) None,
+           [Filter.VU256 6; Filter.VU256 10; Filter.VU64 2; Filter.VU64 3; Filter.VU64 5; Filter.VInt Z0]);
+         trow_of cb 1 (Key 0 (Some 1) None None,
+           [Filter.VU256 11; Filter.VU64 1; Filter.VU64 0; Filter.VU64 1]);
+         trow_of cb 2 (Key 3 (Some 4) None None,
+           [Filter.VU256 12; Filter.VU64 2; Filter.VU64 3; Filter.VU64 4]) ]
+  /\ map (fun x => (c_ig x, c_num x)) (d_curs d) = [(t_ig ca, 1); (t_ig ca, 2); (t_ig cb, 1); (t_ig cb, 2)].
+Proof. exact BridgeSystemP.ex_final. Qed.
